@@ -56,7 +56,50 @@ type WaitInfo struct {
 	HolderTop  uint64 // waiting for this transaction to end (0 if advisory)
 	HolderSess int    // session id holding an advisory lock (when HolderTop==0)
 	What       string
+	WaiterSess int   // the session that waits
+	IsAdvisory bool  // waiting for advisory lock AdvKey to be free of other sessions
+	AdvKey     int64
 }
+
+// Lock / Unlock expose the engine lock to schedulers (Block must release it while parked).
+func (db *DB) Lock()   { db.mu.Lock() }
+func (db *DB) Unlock() { db.mu.Unlock() }
+
+// WaitSatisfied reports whether a parked waiter could proceed now.
+func (db *DB) WaitSatisfied(w WaitInfo, waiterSess int) bool {
+	db.mu.Lock()
+	defer db.mu.Unlock()
+	if w.IsAdvisory {
+		for _, l := range db.advisory {
+			if l.key == w.AdvKey && l.sessID != w.WaiterSess {
+				return false
+			}
+		}
+		return true
+	}
+	return db.waitDone(w)
+}
+
+// HolderSession returns the session the waiter is waiting for (0 if unknown).
+func (db *DB) HolderSession(w WaitInfo) int {
+	db.mu.Lock()
+	defer db.mu.Unlock()
+	if w.IsAdvisory {
+		for _, l := range db.advisory {
+			if l.key == w.AdvKey && l.sessID != w.WaiterSess {
+				return l.sessID
+			}
+		}
+		return 0
+	}
+	if w.HolderTop != 0 {
+		return db.sessionOfTop(w.HolderTop)
+	}
+	return w.HolderSess
+}
+
+// NewPgError builds an SQL-level error (for schedulers: deadlock victims).
+func NewPgError(code, msg string) error { return &PgError{Code: code, Message: msg} }
 
 type advLock struct {
 	key    int64
@@ -482,6 +525,7 @@ func (s *Session) release(name string) error {
 func (s *Session) waitFor(w WaitInfo) error {
 	db := s.db
 	db.Stats.Blocks++
+	w.WaiterSess = s.ID
 	switch db.Mode {
 	case ModeSequential:
 		return &EngineError{Msg: fmt.Sprintf("session %d would block on %s in sequential mode (self-deadlock)", s.ID, w.What)}
@@ -593,6 +637,7 @@ func (s *Session) advisoryLock(key int64, xact bool) error {
 func (s *Session) waitAdvisory(key int64, w WaitInfo) error {
 	db := s.db
 	db.Stats.Blocks++
+	w.WaiterSess, w.IsAdvisory, w.AdvKey = s.ID, true, key
 	switch db.Mode {
 	case ModeSequential:
 		return &EngineError{Msg: fmt.Sprintf("session %d would block on %s in sequential mode (self-deadlock)", s.ID, w.What)}
